@@ -245,3 +245,36 @@ def create_bucket(ds, bid, **kw):
     args = dict(type="t", client="c", hostname="h", created=gen.dt_utc(1_500_000_000_000_000))
     args.update(kw)
     return ds.create_bucket(bid, **args)
+
+
+@contextlib.contextmanager
+def pinned_now(module_names, us):
+    """While active, `datetime.now()` / `utcnow()` read through the name `datetime` of the given modules return the instant
+    `us`: the harness decides what 'the present' is for code that looks at the clock."""
+    import datetime as _dt
+    import importlib
+
+    class _Pinned(_dt.datetime):
+        @classmethod
+        def now(cls, tz=None):
+            base = _dt.datetime.fromtimestamp(us / 10**6, _dt.timezone.utc)
+            return base.replace(tzinfo=None) if tz is None else base.astimezone(tz)
+
+        @classmethod
+        def utcnow(cls):
+            return _dt.datetime.fromtimestamp(us / 10**6, _dt.timezone.utc).replace(tzinfo=None)
+
+    saved = []
+    for name in module_names:
+        try:
+            mod = importlib.import_module(name)
+        except Exception:
+            continue
+        if getattr(mod, "datetime", None) is _dt.datetime:
+            saved.append(mod)
+            mod.datetime = _Pinned
+    try:
+        yield
+    finally:
+        for mod in saved:
+            mod.datetime = _dt.datetime
